@@ -51,14 +51,15 @@ SPEC = {
                 rule='histories over a pool of <=4 components of register (admissible only) / unregister / fire / tick of any root, '
                      'incl. nested unregistration, re-registration, unregister from handlers; non-trivial = >=2 attach/detach transitions'),
     'C08': dict(manual=[], run=[(['prio', 'values'], 360), (['prio', 'values', 'gen', 'flags'], 180)],
-                kinds={'F', 'D', 'I', 'B'}, opts={},
+                stop_patterns=150, kinds={'F', 'D', 'I', 'B'}, opts={},
                 nontrivial=lambda w: any(op[0] == 'run' for op in w.ops),
                 rule='run() of programs with stop()/SystemExit/KeyboardInterrupt placed in started / mid-chain / generator step / '
                      'stopped handler, exit codes {None,0,3}, 1-2 run cycles, stop() on an idle manager; virtual clock'),
-    'C09': dict(manual=[], run=[(['prio', 'values', 'timers', 'gen'], 450)],
+    'C09': dict(manual=[], run=[(['prio', 'values', 'timers', 'gen'], 300), (['prio', 'values', 'timers', 'gen', 'deadlines'], 150)],
                 kinds={'F', 'D', 'W', 'H'}, opts={},
                 nontrivial=lambda w: len(w.side['tfires']) >= 2,
-                rule='1-5 timers (intervals {0,1,8,16,32,64}/64 s, persistent or not, reset / unregistered from handlers) with '
+                rule='1-5 timers (intervals {0,1,8,16,32,64}/64 s or an absolute datetime deadline inside / at the start of a second / in '
+                     'the past, persistent or not, reset / unregistered from handlers) with '
                      'ordinary events and generator tasks under run() on a virtual clock; non-trivial = >=2 timer firings'),
 }
 
@@ -78,6 +79,8 @@ def scenarios(ctx, prop):
         out.append(core_gen.gen_cache_pattern(ctx.rng))
     for _ in range(sp.get('multichan_patterns', 0) * ctx.scale):
         out.append(core_gen.gen_multichan_pattern(ctx.rng))
+    for _ in range(sp.get('stop_patterns', 0) * ctx.scale):
+        out.append(core_gen.gen_stop_pattern(ctx.rng))
     for feats, n in sp['run']:
         for _ in range(max(1, n * ctx.scale // (1 if ctx.scale == 1 else 2))):
             out.append(core_gen.gen_run_scenario(ctx.rng, feats))
